@@ -273,6 +273,7 @@ inductive Res where
   | dest (d : Dest)
   | filt (f : Filt)
   | subs (l : List Sub)
+  | exited (reraised : Bool)     -- `__exit__` returned False: an exception raised inside the block propagates
   | dests (l : List Dest)
   | filts (l : List Filt)
   | err (e : PyExc)
@@ -599,10 +600,10 @@ inductive Op where
   | dropMgr (m : Nat)                                   -- the object is lost without clean-up (client restart)
   | addServer (m s : Nat)
   | removeServer (m s : Nat)
-  | removeAll (m : Nat)                                 -- remove_all_servers(), and __exit__(exc_type, exc_value, tb)
-                                                        -- for EVERY exc_type (normal end of the `with` block or any
-                                                        -- exception raised inside it): `self.remove_all_servers();
-                                                        -- return False` — the exception never influences the clean-up
+  | removeAll (m : Nat)                                 -- remove_all_servers()
+  | exitCtx (m : Nat) (exc : Option Nat)                -- leaving `with mgr:` — normally (none) or through an
+                                                        -- exception of class `exc` raised inside the block:
+                                                        -- `__exit__`: self.remove_all_servers(); return False
   | addDest (m s : Nat) (a : DestArgs)
   | addFilter (m s : Nat) (owned : Bool) (fid name : Option Str)
   | addSubs (m s : Nat) (f : Path) (sel : DestSel) (owned : Bool)
@@ -655,6 +656,13 @@ def step (w : World) (op : Op) : World × Res :=
     match w.ids m with
     | none => (w, .bad)
     | some _ => removeAllLoop m w (w.servers m)
+  | .exitCtx m exc =>
+    match w.ids m with
+    | none => (w, .bad)
+    | some _ =>
+      match removeAllLoop m w (w.servers m) with
+      | (w', .done) => (w', .exited exc.isSome)      -- `return False`: nothing is swallowed
+      | r => r                                       -- an exception of the clean-up replaces it
   | .addDest m s a =>
     match w.ids m with
     | none => (w, .bad)
